@@ -99,6 +99,21 @@ def c11(pid, tier, t0):
         "thorough adds length 6 on the plain build with only the exact program-length check"])
 
 
+@check("C12")
+def c12(pid, tier, t0):
+    exe = nv.build_harness("c12_fastpath", "plain", ["c12_fastpath.c", "peek_rstr.c"], replace=["rstr"], extra_flags=["-O2"])
+    res = nv.run_shards(exe, ["tier=" + tier, "deadline=%d" % dl(tier)], nv.NCPU, dl(tier) + 60)
+    return nv.finish(pid, tier, t0, res, {
+        "rule": "all 16 anchor combinations ^? \\<? lit \\>? $? with literals of <= literal_len characters over {a,B,-,space,U+00E9,|,^,b} (empty literal included) "
+                "x all lines of <= line_len characters over {a,b,B,-,space,U+00E9}+newline x icase x notbol x noteol; classifier on every string of <= 3 (thorough 4) symbols over the "
+                "metacharacter alphabet; non-trivial = comparison in which both matchers found a match",
+        "depth_bound": res.stats.get("line_len"),
+        "explanation": "rstr_make/rstr_find vs rset_make(1)/rset_find on the same input: same found/not-found, same (so,eo); groups 1..3 pre-filled with a sentinel must come back -1; "
+                       "a pattern classified as literal (peek at rstr.c's private field) must contain no ERE operator outside the anchor slots",
+    }, ["comparisons are made whether or not the fast path was taken (the classifier result is only used for the listed deviation and the classifier clause)",
+        "lines are newline-terminated, as every line the editor hands to the matcher"])
+
+
 def replay(path):
     print("replay artefact:")
     print(open(path).read())
